@@ -49,13 +49,74 @@ pub fn negm(a: u128, p: u128) -> u128 {
 pub fn mulm(a: u128, b: u128, p: u128) -> u128 {
     if p < (1u128 << 64) {
         (a % p) * (b % p) % p
+    } else if p == P128 && fast128_ok() {
+        mulm128_fast(a, b)
     } else {
-        let r = (BigUint::from(a) * BigUint::from(b)) % BigUint::from(p);
-        let d = r.to_u64_digits();
-        let lo = *d.first().unwrap_or(&0) as u128;
-        let hi = *d.get(1).unwrap_or(&0) as u128;
-        (hi << 64) | lo
+        mulm_big(a, b, p)
     }
+}
+
+/// arbitrary-precision product and remainder (the definition)
+pub fn mulm_big(a: u128, b: u128, p: u128) -> u128 {
+    let r = (BigUint::from(a) * BigUint::from(b)) % BigUint::from(p);
+    let d = r.to_u64_digits();
+    let lo = *d.first().unwrap_or(&0) as u128;
+    let hi = *d.get(1).unwrap_or(&0) as u128;
+    (hi << 64) | lo
+}
+
+fn mul_wide(a: u128, b: u128) -> (u128, u128) {
+    let (a1, a0) = (a >> 64, a & u64::MAX as u128);
+    let (b1, b0) = (b >> 64, b & u64::MAX as u128);
+    let ll = a0 * b0;
+    let lh = a0 * b1;
+    let hl = a1 * b0;
+    let hh = a1 * b1;
+    let mid = (ll >> 64) + (lh & u64::MAX as u128) + (hl & u64::MAX as u128);
+    let lo = (ll & u64::MAX as u128) | (mid << 64);
+    let hi = hh + (lh >> 64) + (hl >> 64) + (mid >> 64);
+    (hi, lo)
+}
+
+/// product modulo 2^128 - 45*2^40 + 1 using 2^128 = 45*2^40 - 1 (mod p); used only after the
+/// self-test below has compared it with the arbitrary-precision definition
+fn mulm128_fast(a: u128, b: u128) -> u128 {
+    const C: u128 = 45 * (1u128 << 40) - 1;
+    let (mut hi, mut lo) = mul_wide(a, b);
+    while hi != 0 {
+        let (h2, l2) = mul_wide(hi, C);
+        let (s, carry) = lo.overflowing_add(l2);
+        lo = s;
+        hi = h2 + carry as u128;
+    }
+    if lo >= P128 {
+        lo - P128
+    } else {
+        lo
+    }
+}
+
+fn fast128_ok() -> bool {
+    static OK: std::sync::OnceLock<bool> = std::sync::OnceLock::new();
+    *OK.get_or_init(|| {
+        let mut x: u128 = 0x0123_4567_89AB_CDEF_0F1E_2D3C_4B5A_6978;
+        let edge = [0u128, 1, 2, P128 - 1, P128 - 2, u128::MAX, u128::MAX - 1, 1 << 127, 1 << 64, (1 << 64) - 1, 45 << 40, (45 << 40) - 1, P128, P128 + 1];
+        for a in edge {
+            for b in edge {
+                if mulm128_fast(a, b) != mulm_big(a, b, P128) {
+                    return false;
+                }
+            }
+        }
+        for i in 0..20_000u128 {
+            x = x.wrapping_mul(0x2545_F491_4F6C_DD1D_9E37_79B9_7F4A_7C15).wrapping_add(i ^ 0xABCD);
+            let y = x.rotate_left(37) ^ (i << 90);
+            if mulm128_fast(x, y) != mulm_big(x, y, P128) {
+                return false;
+            }
+        }
+        true
+    })
 }
 
 pub fn powm(a: u128, mut e: u128, p: u128) -> u128 {
